@@ -32,8 +32,17 @@ REQUIRED_HOOKS = [
     "point:centre",
     "point:z-axis",
     "point:grid-point",
+    "pair:r0",
+    "pair:nodes",
+    "pair:centre",
+    "pair:weights",
+    "pair:rotated",
+    "point-form:int64",
+    "point-form:float32",
+    "point-form:strided-rows",
+    "point-form:fortran-order",
 ]
-REQUIRED_FAMILIES = ["atom", "molecule"]
+REQUIRED_FAMILIES = ["atom", "molecule", "paired"]
 BUDGET = {"quick": 400, "thorough": 3600}
 METHODS = ["lebedev", "spherical", "maxdet", "ahrens_beylkin"]
 RADIAL = ["becke-gl", "becke-gc", "linear-cc0", "linear-trap0", "linear-simpson0", "linear-gl", "exp-ui", "power-ui", "knowles-gc2", "handy-gl", "lininf-ui", "explicit0", "tiny"]
@@ -86,6 +95,13 @@ def cases(tier, seed):
                     big = bool(rng.random() < (0.2 if tier == "quick" else 0.4))
                     out.append(("atom", {"method": m, "radial": rk, "deg": dk, "big": big, "k": k}, 6.0 if big else 2.0))
                     k += 1
+    npair = 3 if tier == "quick" else 30
+    j = 0
+    for rep in range(npair):
+        for m in METHODS:
+            for vary in ("r0", "nodes", "centre", "weights"):
+                out.append(("paired", {"method": m, "vary": vary, "deg": ["uniform", "mixed"][(j + rep) % 2], "k": j}, 8.0))
+                j += 1
     nmol = 64 if tier == "quick" else 640
     for i in range(nmol):
         out.append(("molecule", {"method": METHODS[i % 4], "weights": ["becke", "array"][(i // 4) % 2], "natom": 2 + (i // 8) % 3, "k": i}, 1.5))
@@ -317,6 +333,8 @@ def run_case(ctx, family, params):
         _run_atom(ctx, params)
     elif family == "molecule":
         _run_molecule(ctx, params)
+    elif family == "paired":
+        _run_paired(ctx, params)
     else:
         raise ValueError(family)
 
@@ -336,7 +354,7 @@ def _run_atom(ctx, params):
     _check_grid(ctx, g, info, rng, forms=True)
 
 
-def _check_grid(ctx, g, info, rng, forms=False, note=""):
+def _check_grid(ctx, g, info, rng, forms=False, note="", n_generic=None):
     """All clauses of the property for ONE use of one atomic grid with a fresh random band-limited function."""
     F = None
     c = info["center"]
@@ -430,7 +448,8 @@ def _check_grid(ctx, g, info, rng, forms=False, note=""):
     if F is None:
         return
 
-    n_generic = 24 if ctx.tier == "quick" else 40
+    if n_generic is None:
+        n_generic = 24 if ctx.tier == "quick" else 40
     P, tags = _eval_points(g, c, rng, n_generic)
     for t in ("centre", "z-axis", "grid-point"):
         ctx.hit("point:" + t, int(np.sum(tags == t)))
@@ -545,6 +564,142 @@ def _check_grid(ctx, g, info, rng, forms=False, note=""):
                     ctx.count("z-axis-gradient-agrees")
 
 
+    if forms:
+        _check_point_forms(ctx, F, "AtomGrid.interpolate", c, rng, float(rpos[0]), float(r[-1]), S, "only_radial_deriv")
+        with ctx.guard("function-values-array-form", "AtomGrid.interpolate"):
+            big = np.zeros(2 * len(fv))
+            big[::2] = fv
+            ro = fv.copy()
+            ro.setflags(write=False)
+            Pq = P[:12]
+            ref = np.asarray(F(Pq))
+            for name, arr in (("strided", big[::2]), ("readonly", ro)):
+                got = np.asarray(g.interpolate(arr)(Pq))
+                e = np.max(np.abs(got - ref)) / (np.max(np.abs(ref)) + S)
+                ctx.check("function-values-array-form", "AtomGrid.interpolate:" + name, e, 1e-12, sig=_sig(e))
+
+
+# ---------------------------------------------------------------------------------------------- array forms of the points
+MODES = [("values", {}), ("cartesian", {"deriv": 1}), ("spherical", {"deriv": 1, "deriv_spherical": True}), ("radial-nu=1", {"deriv": 1, "RADIAL": True}), ("radial-nu=2", {"deriv": 2, "RADIAL": True}), ("radial-nu=3", {"deriv": 3, "RADIAL": True})]
+
+
+def _check_point_forms(ctx, call, api, c, rng, rlo, rhi, S, radial_kw):
+    """The returned callable must not depend on HOW the (N, 3) evaluation points are stored: integer dtype (lattice
+    points), float32, strided views, Fortran order, read-only - compared with the float64 C-contiguous copy of the
+    same numbers, for values and every derivative mode (also at the centre / on the z-axis: same code path)."""
+    R = int(np.clip(np.floor(rhi), 2, 6))
+    lat = np.vstack([rng.integers(-R, R + 1, size=(10, 3)), [[0, 0, 0], [0, 0, 1], [0, 0, -2], [1, 0, 0], [-1, 2, 0]], np.rint(c).astype(int)[None, :]]).astype(np.int64)
+    d = rng.normal(size=(12, 3))
+    d /= np.linalg.norm(d, axis=1)[:, None]
+    Pf = c + d * np.exp(rng.uniform(np.log(rlo), np.log(rhi), 12))[:, None]
+    P32 = Pf.astype(np.float32)
+    rows = np.zeros((2 * len(Pf), 3))
+    rows[::2] = Pf
+    cols = np.zeros((len(Pf), 5))
+    cols[:, 1:4] = Pf
+    ro = Pf.copy()
+    ro.setflags(write=False)
+    latf, P32f = lat.astype(float), P32.astype(float)
+    refs = {}
+    forms = [
+        ("int64", lat, latf, 1e-10),
+        ("int32", lat.astype(np.int32), latf, 1e-10),
+        ("float32", P32, P32f, 1e-5),
+        ("strided-rows", rows[::2], Pf, 1e-10),
+        ("strided-cols", cols[:, 1:4], Pf, 1e-10),
+        ("fortran-order", np.asfortranarray(Pf), Pf, 1e-10),
+        ("read-only", ro, Pf, 1e-10),
+    ]
+    for fname, arr, ref_pts, tol in forms:
+        subj = f"{api}:{fname}"
+        ctx.hit("point-form:" + fname)
+        for mode, kw in MODES:
+            kw = dict(kw)
+            if kw.pop("RADIAL", False):
+                kw[radial_kw] = True
+            with ctx.guard("evaluation-point-array-form", subj):
+                if (id(ref_pts), mode) not in refs:
+                    refs[(id(ref_pts), mode)] = np.asarray(call(np.ascontiguousarray(ref_pts, dtype=float), **kw), dtype=float)
+                ref = refs[(id(ref_pts), mode)]
+                got = np.asarray(call(arr, **kw), dtype=float)
+                if got.shape != ref.shape:
+                    ctx.check("evaluation-point-array-form", subj, False, sig=mode + ":shape", detail={"got": list(got.shape), "want": list(ref.shape)})
+                    continue
+                fin = np.isfinite(ref)
+                same_nan = bool(np.array_equal(fin, np.isfinite(got)))
+                scale = (np.max(np.abs(ref[fin])) if np.any(fin) else 0.0) + S
+                e = (np.max(np.abs(got[fin] - ref[fin])) / scale) if (same_nan and np.any(fin)) else (0.0 if same_nan else np.inf)
+                ctx.check("evaluation-point-array-form", subj, e, tol, sig=mode + ":differs", detail={"max_abs_diff": float(np.max(np.abs(got[fin] - ref[fin]))) if same_nan and np.any(fin) else "nan-pattern", "scale": float(scale)})
+
+
+# ---------------------------------------------------------------------------------------------- sequenced grids
+NO_R0 = ["becke-gl", "linear-gl", "exp-ui", "power-ui", "knowles-gc2", "lininf-ui", "becke-gc", "handy-gl"]
+WITH_R0 = ["linear-cc0", "linear-trap0", "explicit0"]
+
+
+def _run_paired(ctx, params):
+    """Two or three AtomGrid objects that agree in (method, rotate, per-shell degrees) and differ in exactly ONE other
+    ingredient, used alternately in one process: every clause on each, after the other one has been used
+    (X0, X1, [X2], X0 again, a freshly built twin of X1, a freshly built twin of X0)."""
+    from grid.atomgrid import AtomGrid
+    from grid.basegrid import OneDGrid
+
+    rng = ctx.rng
+    m, vary = params["method"], params["vary"]
+    n = int(rng.integers(8, 15))
+    lo, hi = _degree_pool(m)
+    hi = min(hi, 18)
+    if params["deg"] == "uniform":
+        degrees = [int(rng.integers(lo, hi + 1))]
+    else:
+        degrees = [int(v) for v in rng.integers(lo, hi + 1, n)]
+    rotate = 0 if rng.random() < 0.2 else int(rng.integers(1, 2**31))
+    centre = [np.zeros(3), rng.normal(size=3) * 2.0][int(rng.integers(0, 2))]
+    nvar = 2 + int(rng.random() < 0.5)
+    specs = []  # (rgrid, centre)
+    if vary == "r0":
+        kinds = [str(rng.choice(NO_R0)), str(rng.choice(WITH_R0)), "tiny"][:nvar]
+        specs = [(_radial_grid(k, n, rng), centre) for k in kinds]
+    elif vary == "nodes":
+        k0 = str(rng.choice(NO_R0 + WITH_R0))
+        kinds = [k0, k0, str(rng.choice(NO_R0))][:nvar]  # same rule with other parameters, then another rule
+        specs = [(_radial_grid(k, n, rng), centre) for k in kinds]
+    elif vary == "centre":
+        rg = _radial_grid(str(rng.choice(NO_R0 + WITH_R0)), n, rng)
+        specs = [(rg, centre), (rg, centre + rng.normal(size=3)), (rg, np.zeros(3) if np.any(centre) else np.array([0.0, 0.0, 1.5]))][:nvar]
+    elif vary == "weights":
+        rg = _radial_grid(str(rng.choice(NO_R0 + WITH_R0)), n, rng)
+        specs = [(rg, centre)] + [(OneDGrid(rg.points.copy(), rg.weights * rng.uniform(0.3, 3.0, rg.size), rg.domain), centre) for _ in range(nvar - 1)]
+    else:
+        raise ValueError(vary)
+    order = rng.permutation(len(specs))
+    specs = [specs[i] for i in order]
+
+    def build(i):
+        rg, cen = specs[i]
+        return AtomGrid(rg, degrees=list(degrees), center=np.array(cen, float), rotate=rotate, method=m), {"center": np.array(cen, float), "rotate": rotate, "centre_kind": int(np.any(cen))}
+
+    grids = []
+    with ctx.guard("constructible", f"AtomGrid:{m}:paired:{vary}"):
+        grids = [build(i) for i in range(len(specs))]
+    if not grids:
+        return
+    if len({tuple(int(d) for d in g.degrees) for g, _ in grids}) != 1:
+        raise core.MonitorError("paired grids do not share their degree sequence")
+    ctx.hit("pair:" + vary)
+    ctx.hit("pair:rotated" if rotate else "pair:unrotated")
+    ctx.case_note("n_grids", len(grids))
+    ctx.case_note("rotate", rotate)
+    seq = list(range(len(grids))) + [0]
+    for step, i in enumerate(seq):
+        g, info = grids[i]
+        _check_grid(ctx, g, info, rng, note=f"use{step}:", n_generic=8)
+    for step, i in ((len(seq), 1), (len(seq) + 1, 0)):  # brand-new objects with the ingredients of X1, X0
+        with ctx.guard("constructible", f"AtomGrid:{m}:paired:{vary}"):
+            g, info = build(i)
+            _check_grid(ctx, g, info, rng, note=f"use{step}(twin):", n_generic=8)
+
+
 # ---------------------------------------------------------------------------------------------- molecules
 def _run_molecule(ctx, params):
     from grid.becke import BeckeWeights
@@ -620,6 +775,7 @@ def _run_molecule(ctx, params):
             sc = sum(np.max(np.abs(np.asarray(af(Pg, **kwa), dtype=float))) for af in atom_funcs) + 1e-300
             e = np.max(np.abs(gm - ga)) / sc
             ctx.check("molecular-sum-of-atomic", subj + ":" + name, e, 1e-11, sig=_sig(e))
+        _check_point_forms(ctx, Fm, "MolGrid.interpolate", base, rng, 0.2, 4.0, S, "only_radial_derivs")
         # the molecular interpolant reproduces f at the grid points of an atom only as well as the other atoms'
         # splines allow: recorded, not decided
         ctx.case_note("max_rel_dev_at_grid_points", float(np.max(np.abs(np.asarray(Fm(mol.points[:: max(1, mol.size // 200)])) - fv[:: max(1, mol.size // 200)])) / S))
